@@ -12,13 +12,17 @@
     * parsePath_steps : props.ParsePath has one segment per addressing step;
     * Search is the filter of the flattened view;
     * rebuilding from (path, leaf) pairs always yields a valid document, the pair inserted last
-      resolves, and insertions at key-divergent paths do not disturb each other.
-  Stated, NOT yet proved (kept visible; carried by the tie on every run — harness clause
-  "rebuild(any order) gives the same flattened view", all permutations for <= 5 leaves):
-    rebuild_perm : ItemsHaveScalars d → σ ~ flatten d → flatten (rebuild σ) ~ flatten d
+      resolves, and insertions at key-divergent paths do not disturb each other;
+    * rebuild_perm : ItemsHaveScalars d → σ ~ flatten d → flatten (rebuild σ) = flatten d
+      (equality of the flattened views AS LISTS, for every insertion order; proof in
+      YtkProofs/Rebuild.lean: the document built so far is always `mask S d`, the restriction of
+      `d` to the leaf paths inserted so far with null pads in list slots not yet reached);
+    * rebuild_perm_exact : without empty lists / containers below the root, `rebuild σ = d`.
 -/
 import YtkProofs.Addr
 import YtkProofs.PointerPaths
+import YtkProofs.RebuildB
+import YtkProofs.ValidB
 
 namespace Ytk.C02
 
@@ -63,7 +67,70 @@ theorem rebuild_last_partial (pairs : List (String × Scalar)) (p : String) (v :
 theorem rebuild_frame_partial (d : AMap Node) (ps qs : List String) (v : Node) (h : Diverge ps qs) :
     lookupSegs (addAtSegs d ps v) qs = lookupSegs d qs := lookupSegs_addAtSegs_frame ps qs d v h
 
+/-- **rebuild_perm**: inserting the flattened (path, leaf) pairs of a valid, path-safe document in
+    ANY order with `AddValueAt` into an empty document gives a document with the same flattened
+    view (equal as lists: same paths, same leaves, same traversal order) — provided every list
+    item anywhere in the document holds at least one scalar (`ItemsHaveScalars`; an item without a
+    scalar, e.g. `{}` or `[]` inside a list, has no flattened entry and would come back as a null
+    pad or shift later items). -/
+theorem rebuild_perm (d : AMap Node) (hv : (Node.cont d).Valid) (hs : (Node.cont d).SafeKeys)
+    (hi : ItemsHaveScalars d) (σ : List (String × Scalar)) (h : σ.Perm (flatten d)) :
+    flatten (rebuild σ) = flatten d :=
+  rebuild_cover d hv hs hi σ (fun _ hx => h.mem_iff.mp hx) (fun _ hx => h.mem_iff.mpr hx)
+
+/-- the same with repetitions: any list of pairs with exactly the flattened entries (each possibly
+    several times, any order) rebuilds the flattened view -/
+theorem rebuild_cover_dups (d : AMap Node) (hv : (Node.cont d).Valid) (hs : (Node.cont d).SafeKeys)
+    (hi : ItemsHaveScalars d) (σ : List (String × Scalar))
+    (h1 : ∀ x ∈ σ, x ∈ flatten d) (h2 : ∀ x ∈ flatten d, x ∈ σ) : flatten (rebuild σ) = flatten d :=
+  rebuild_cover d hv hs hi σ h1 h2
+
+/-- the flattened Go map is rebuilt as well -/
+theorem rebuild_perm_flattenMap (d : AMap Node) (hv : (Node.cont d).Valid) (hs : (Node.cont d).SafeKeys)
+    (hi : ItemsHaveScalars d) (σ : List (String × Scalar)) (h : σ.Perm (flatten d)) :
+    flattenMap (rebuild σ) = flattenMap d := by
+  unfold flattenMap
+  rw [rebuild_perm d hv hs hi σ h]
+
+/-- when additionally no list and no container below the root is empty, the rebuilt DOCUMENT is
+    the original one (not only its flattened view), for every insertion order -/
+theorem rebuild_perm_exact (d : AMap Node) (hv : (Node.cont d).Valid) (hs : (Node.cont d).SafeKeys)
+    (hn : ∀ p ∈ d, p.2.NoEmpty) (σ : List (String × Scalar)) (h : σ.Perm (flatten d)) :
+    rebuild σ = d :=
+  rebuild_exact d hv hs hn σ (fun _ hx => h.mem_iff.mp hx) (fun _ hx => h.mem_iff.mpr hx)
+
 def exDoc : AMap Node := [("a", .list [.list [.leaf ⟨"int", "1"⟩, .leaf Scalar.null], .cont [("x", .leaf ⟨"string", "s"⟩)]]), ("b", .cont [])]
 theorem nonvacuous_flatten : (flatten exDoc).map (·.1) = ["a[0][0]", "a[0][1]", "a[1].x"] := by decide
+
+/-- the hypotheses of `rebuild_perm` hold on a document with a list in a list, a container in a
+    list, a null leaf and an empty keyed container; the rebuilt document is NOT the original (the
+    empty container `b` has no flattened entry) but has the same flattened view -/
+theorem nonvacuous_rebuild :
+    (Node.cont exDoc).Valid ∧ (Node.cont exDoc).SafeKeys ∧ ItemsHaveScalars exDoc ∧
+      rebuild (flatten exDoc).reverse ≠ exDoc ∧
+      flatten (rebuild (flatten exDoc).reverse) = flatten exDoc := by
+  have hv : (Node.cont exDoc).Valid := Node.validB_sound _ (by decide +kernel)
+  have hs : (Node.cont exDoc).SafeKeys := Node.safeB_sound _ (by decide +kernel)
+  have hi : ItemsHaveScalars exDoc := Node.itemsB_sound _ (by decide +kernel)
+  refine ⟨hv, hs, hi, ?_, rebuild_perm exDoc hv hs hi _ (List.reverse_perm _)⟩
+  intro e
+  have h1 := congrArg List.length e
+  have h2 : (rebuild (flatten exDoc).reverse).length = 1 := by decide +kernel
+  rw [h2] at h1
+  exact absurd h1 (by decide)
+
+def exFull : AMap Node :=
+  [("a", .list [.list [.leaf ⟨"int", "1"⟩, .leaf Scalar.null], .cont [("x", .leaf ⟨"string", "s"⟩)]]),
+   ("b", .cont [("c", .leaf ⟨"bool", "true"⟩)])]
+
+/-- the hypotheses of `rebuild_perm_exact` hold on a document with nested lists and containers;
+    it is rebuilt exactly from its reversed flattened view -/
+theorem nonvacuous_rebuild_exact :
+    (Node.cont exFull).Valid ∧ (Node.cont exFull).SafeKeys ∧ (∀ p ∈ exFull, p.2.NoEmpty) ∧
+      rebuild (flatten exFull).reverse = exFull := by
+  have hv : (Node.cont exFull).Valid := Node.validB_sound _ (by decide +kernel)
+  have hs : (Node.cont exFull).SafeKeys := Node.safeB_sound _ (by decide +kernel)
+  have hn : ∀ p ∈ exFull, p.2.NoEmpty := noEmptyKvsB_sound _ (by decide +kernel)
+  exact ⟨hv, hs, hn, rebuild_perm_exact exFull hv hs hn _ (List.reverse_perm _)⟩
 
 end Ytk.C02
